@@ -191,6 +191,21 @@ pub fn trace(seed: u64, runs: usize, dir: &str, maxrecs: usize, what: &str) {
 /// trace idx <seed> <runs> <dir>: index maxima of every unchecked access site (oligo, oligocgr, coverage, counter)
 pub fn idx(seed: u64, runs: usize, dir: &str) {
     trace(seed, runs * 3, dir, 12, "idx");
+    // the counter with small memory ceilings: more partitions than threads
+    {
+        let mut rng = Rng::new(seed ^ 0x77);
+        for i in 0..runs {
+            let seqs: Vec<Vec<u8>> = (0..8).map(|_| { let n = rng.range(20, 120) as usize; gen_seq(&mut rng, n, false) }).collect();
+            let cfg = crate::ctrrun::CtrCfg { k: [5usize, 15, 31][i % 3], threads: 1 + (i % 3), limit: [0u64, 60, 300][i % 3], delete: true, acgt: false };
+            for e in crate::ctrrun::free_run(&cfg, &seqs, dir, None) {
+                if e["ev"] == "ctr.counted" {
+                    println!("{}", json!({"ev":"idx","site":"ctr.partition","a":[e["a"][2], e["a"][3]]}));
+                } else if e["ev"] == "crash" {
+                    println!("{}", e);
+                }
+            }
+        }
+    }
     let mut rng = Rng::new(seed ^ 0x55);
     for i in 0..runs {
         for k in 1..=8usize {
